@@ -2,6 +2,7 @@ package gose
 
 import (
 	"fmt"
+	"path/filepath"
 	"strings"
 
 	"golang.org/x/tools/go/ssa"
@@ -101,6 +102,31 @@ func (m *Machine) callVx(fn *ssa.Function, a []Value) Value {
 		return int64(m.Choose(name, int(m.toInt(a[1]))))
 	case "vxConcrete":
 		return m.toInt(a[0])
+	case "vxShape":
+		// case-split on the shape of a symbolic string: its length and which positions hold
+		// one of the structural characters; the other characters stay symbolic
+		v := m.normScalar(a[0])
+		st, ok := v.(*sym.Str)
+		if !ok {
+			return v
+		}
+		structural := m.mustStr(a[1], "vxShape chars")
+		n := int(m.Concretize(c.Zext(st.Len, 32), false))
+		r := &sym.Str{Len: c.L(n), Ch: make([]*sym.Term, n)}
+		for i := 0; i < n; i++ {
+			r.Ch[i] = st.Ch[i]
+			if st.Ch[i].IsConst() {
+				continue
+			}
+			for k := 0; k < len(structural); k++ {
+				kc := c.BV(8, uint64(structural[k]))
+				if m.Decide(c.Eq(st.Ch[i], kc)) {
+					r.Ch[i] = kc
+					break
+				}
+			}
+		}
+		return m.normScalar(r)
 	case "vxConcreteStr":
 		return m.concretizeStr(a[0])
 	case "vxAssume":
@@ -203,6 +229,9 @@ func (m *Machine) callVx(fn *ssa.Function, a []Value) Value {
 	case "vxTraceMode":
 		m.Env.Trace = m.DecideV(a[0])
 		return nil
+	case "vxTraceStatSeq":
+		m.Env.TraceStatSeq = m.mustStr(a[0], "vxTraceStatSeq")
+		return nil
 	case "vxTraceStatFork":
 		m.Env.TraceStatFork = m.DecideV(a[0])
 		return nil
@@ -241,6 +270,18 @@ func (m *Machine) callVx(fn *ssa.Function, a []Value) Value {
 			n.C = &Content{Origin: "pre", Status: int64(2), ID: a[2]}
 		}
 		m.Env.Nodes[p] = n
+		return nil
+	case "vxFSMkdirAll":
+		ab := m.Env.abs(m.mustStr(a[0], "vxFSMkdirAll"))
+		for x := ab; ; x = filepath.Dir(x) {
+			if m.Env.node(x) == nil {
+				m.Env.nextIno++
+				m.Env.Nodes[x] = &Node{Kind: KDir, Ino: m.Env.nextIno, Pre: true}
+			}
+			if x == "/" {
+				break
+			}
+		}
 		return nil
 	case "vxFSPutData":
 		p := m.Env.abs(m.mustStr(a[0], "vxFSPutData"))
